@@ -315,8 +315,16 @@ func oneOp(ts *pdus.Tables, r *fw.Rng, st *opState) (kind, digest string) {
 		return "tlv-bytes", pdus.CanonTLV(v.F["t"].([]pdus.TLV)) + "|" + digestLines(m.String())
 	case 12:
 		id := r.U64()
+		if r.Bool() {
+			// ids that recur, in this goroutine and in the others (status reports for the same few messages)
+			id = []uint64{0x1234567890abcdef, 0x0a8b5c6d7e8f9001, 0xfedcba9876543210, 0x0102030405060708}[r.Intn(4)] + uint64(r.Intn(3))
+		}
 		s := cmpp.MsgID2String(id)
-		return "msgid", fmt.Sprintf("%s|%d", s, cmpp.MsgIDString2Uint64(s))
+		var sb strings.Builder
+		for k := 0; k < 3; k++ { // the same string converted repeatedly
+			fmt.Fprintf(&sb, "|%d", cmpp.MsgIDString2Uint64(s))
+		}
+		return "msgid", s + sb.String()
 	default:
 		rc := fmt.Sprintf("id:%010d sub:001 dlvrd:001 submit date:2410011200 done date:2410011201 stat:DELIVRD err:%03d text:%s", r.U64()%10000000000, r.Intn(1000), "hello")
 		a, _ := smpp34.ExtractDeliveryReceipt(rc)
